@@ -1,4 +1,4 @@
-import MpsVerif.Proofs.BatchTime
+import MpsVerif.Proofs.BatchReach
 /-!
 # C09 — workers see well-formed batches; no request waits for a full batch
 
@@ -12,12 +12,6 @@ every clock behaviour allowed by maximal progress, and every `k`, `batch_size`,
 `batch_wait_time`, with or without pool.
 -/
 namespace Batch
-
-theorem shape_reachable (c : Cfg) {s : State} (hr : Reachable c s) : ShapeInv c s :=
-  reachable_inv c (shape_init c) (shape_step c) hr
-
-theorem time_reachable (c : Cfg) {s : State} (hr : Reachable c s) : TimeInv c s :=
-  reachable_inv c (time_init c) (time_step c) hr
 
 /-- `batch_size = b > 0`: `call` is invoked only with non-empty lists of at most `b` elements, each
     of which arrived as a regular input that `preprocess` accepts (kind `good`; an exception value
@@ -58,5 +52,87 @@ theorem C09_deadline_pending (c : Cfg) (s : State) (hr : Reachable c s) (i : Nat
   rcases h with h | h
   · exact ((time_reachable c hr).ws i).coll b t0 h
   · exact ((time_reachable c hr).ws i).ready b t0 h
+
+/-- Partition.  In every reachable state every request that arrived is in exactly one place:
+    still on `q_in`, inside exactly one worker on its way to `call`, in exactly one recorded call
+    (of whichever worker) exactly once, or short-circuited to `q_out` exactly once — the four
+    counts add up to 1.  Hence no request is ever in two batches or twice in one
+    (`(calledAll s).map uid` has no duplicates), a regular input accepted by `preprocess` is never
+    short-circuited, and a rejected input / exception value is never passed to `call`. -/
+theorem C09_partition (c : Cfg) (s : State) (hr : Reachable c s) :
+    (∀ r ∈ s.arrived, cntU r.uid (reqsOf s.qin) + flightCnt r.uid c.k s.ws + cntU r.uid (calledAll s)
+        + shortCnt r.uid s.out = 1) ∧
+    ((calledAll s).map (·.uid)).Nodup ∧
+    (∀ r ∈ s.arrived, r.kind = .good → shortCnt r.uid s.out = 0) ∧
+    (∀ r ∈ s.arrived, r.kind ≠ .good → r ∉ calledAll s ∧ shortCnt r.uid s.out ≤ 1) := by
+  have hc := count_reachable c hr
+  have hs := shape_reachable c hr
+  have hone : ∀ r ∈ s.arrived, cntU r.uid (reqsOf s.qin) + flightCnt r.uid c.k s.ws + cntU r.uid (calledAll s)
+      + shortCnt r.uid s.out = 1 := by
+    intro r hra
+    have := hc.tot r.uid
+    rw [cntU_arrived_mem c s hc hra] at this
+    simpa [tot] using this
+  have hcalled : ∀ r ∈ calledAll s, r.kind = .good ∧ r ∈ s.arrived := by
+    intro r hrc
+    simp only [calledAll, List.mem_flatMap] at hrc
+    obtain ⟨cl, hcl, hrb⟩ := hrc
+    exact (hs.calls cl hcl).1.2.2 r hrb
+  refine ⟨hone, ?_, ?_, ?_⟩
+  · rw [List.nodup_iff_count]
+    intro u
+    rw [← cntU_eq_count]
+    have := hc.tot u
+    rw [cntU_arrived c s hc] at this
+    simp only [tot] at this
+    split at this <;> omega
+  · intro r hra hk
+    by_cases h0 : shortCnt r.uid s.out = 0
+    · exact h0
+    · obtain ⟨o, ho, hsh⟩ := shortCnt_pos (Nat.pos_of_ne_zero h0)
+      obtain ⟨r', hr', hu, hk'⟩ := short_reachable c hr o ho r.uid hsh
+      have := arrived_uid_inj c s hc hr' hra hu
+      subst this; exact absurd hk hk'
+  · intro r hra hk
+    refine ⟨?_, by have := hone r hra; omega⟩
+    intro hrc
+    exact hk (hcalled r hrc).1
+
+/-- Exactly once, at rest: when nothing is on `q_in` or inside a worker any more, every regular
+    input that `preprocess` accepts appears in exactly one batch exactly once (over all workers), and
+    every rejected input / exception value was forwarded to `q_out` exactly once and appears in no batch. -/
+theorem C09_partition_at_rest (c : Cfg) (s : State) (hr : Reachable c s) (hq : Quiet c s) :
+    (∀ r ∈ s.arrived, r.kind = .good → cntU r.uid (calledAll s) = 1 ∧ r ∈ calledAll s) ∧
+    (∀ r ∈ s.arrived, r.kind ≠ .good → shortCnt r.uid s.out = 1 ∧ r ∉ calledAll s) := by
+  obtain ⟨h1, _, h3, h4⟩ := C09_partition c s hr
+  have hs := shape_reachable c hr
+  have hc := count_reachable c hr
+  have hz : ∀ u, cntU u (reqsOf s.qin) = 0 ∧ flightCnt u c.k s.ws = 0 := by
+    intro u; exact ⟨by rw [hq.1]; rfl, flight_zero_of u c.k s.ws hq.2⟩
+  constructor
+  · intro r hra hk
+    have := h1 r hra; have := h3 r hra hk; have := hz r.uid
+    have hone : cntU r.uid (calledAll s) = 1 := by omega
+    refine ⟨hone, ?_⟩
+    obtain ⟨r', hr', hu⟩ := mem_of_cntU_pos (by omega : 0 < cntU r.uid (calledAll s))
+    have hr'a : r' ∈ s.arrived := by
+      simp only [calledAll, List.mem_flatMap] at hr'
+      obtain ⟨cl, hcl, hrb⟩ := hr'
+      exact ((hs.calls cl hcl).1.2.2 r' hrb).2
+    have := arrived_uid_inj c s hc hr'a hra hu
+    subst this; exact hr'
+  · intro r hra hk
+    have := h1 r hra; have h5 := h4 r hra hk; have := hz r.uid
+    have h0 : cntU r.uid (calledAll s) = 0 := by
+      by_cases h0 : cntU r.uid (calledAll s) = 0
+      · exact h0
+      · obtain ⟨r', hr', hu⟩ := mem_of_cntU_pos (Nat.pos_of_ne_zero h0)
+        have hr'a : r' ∈ s.arrived := by
+          simp only [calledAll, List.mem_flatMap] at hr'
+          obtain ⟨cl, hcl, hrb⟩ := hr'
+          exact ((hs.calls cl hcl).1.2.2 r' hrb).2
+        have := arrived_uid_inj c s hc hr'a hra hu
+        subst this; exact absurd hr' h5.1
+    exact ⟨by omega, h5.1⟩
 
 end Batch
